@@ -16,7 +16,7 @@ INFO = {
     "outside": ["trees outside the corpus", "cycles longer than forward edge + back edge", "the back-edge family is an enumeration of concrete programs, not a solver result"],
     "stubs": ["memfs for the writers"],
 }
-BUDGET = {"quick": 220, "thorough": 1100}
+BUDGET = {"quick": 220, "thorough": 800}
 
 
 def total(ctx, *args):
